@@ -35,7 +35,19 @@ type built struct {
 	text       string // the ammo / scenario file, for messages
 	// strict: no request failed at the transport level, so the counts must be exact (set before finish)
 	strict bool
+	// discarded: ammo the instances acquired but did not shoot because discard_overflow dropped the shot (set before finish)
+	discarded int
 }
+
+func (b *built) discardedNote() string {
+	if b.discarded == 0 {
+		return ""
+	}
+	return fmt.Sprintf(", %d of them were discarded as overflow", b.discarded)
+}
+
+// fired: the ammo that were shot.
+func (b *built) fired(c Case) int { return c.Shots - b.discarded }
 
 func (b *built) cleanup() {
 	for _, f := range b.files {
@@ -87,6 +99,8 @@ func build(c Case, viol *violations) (*built, error) {
 		"id": "p", "gun": gun, "ammo": ammo, "result": result,
 		"rps":     rpsConf(c),
 		"startup": startupConf(c),
+		// the default of the option is set by the CLI only; the harness always names it
+		"discard_overflow": c.DiscardOverflow,
 	}
 	return b, nil
 }
@@ -108,13 +122,21 @@ func sectionConfs(secs []Section) []any {
 
 // rpsConf: the schedule all instances share (the pool has no rps-per-instance).
 func rpsConf(c Case) any {
-	if len(c.Rps) == 0 {
+	secs := c.Rps
+	if c.Behind != nil {
+		// the sections that lie in the past come first (runRound starts the schedule that much earlier)
+		if len(secs) == 0 {
+			secs = []Section{{Type: "once", Tokens: c.rest() + 5}}
+		}
+		secs = c.Behind.sections(secs)
+	}
+	if len(secs) == 0 {
 		return map[string]any{"type": "once", "times": c.Shots + 5}
 	}
 	if c.RpsNested {
-		return map[string]any{"type": "composite", "nested": sectionConfs(c.Rps)}
+		return map[string]any{"type": "composite", "nested": sectionConfs(secs)}
 	}
-	return sectionConfs(c.Rps)
+	return sectionConfs(secs)
 }
 
 func startupConf(c Case) any {
@@ -223,13 +245,13 @@ func buildHTTP(c Case, b *built, viol *violations) (gun, ammo map[string]any, er
 	})
 	b.finish = func() int {
 		recs := tg.Records()
-		if len(recs) > c.Shots || (b.strict && len(recs) != c.Shots) {
-			viol.add("target: %d requests arrived, the provider was limited to %d ammo", len(recs), c.Shots)
+		if shots := b.fired(c); len(recs) > shots || (b.strict && len(recs) != shots) {
+			viol.add("target: %d requests arrived, the provider was limited to %d ammo%s", len(recs), c.Shots, b.discardedNote())
 		}
 		mu.Lock()
 		defer mu.Unlock()
-		// the file is cycled: entry i is delivered floor or ceil of Shots/Entries times
-		lo, hi := c.Shots/p.Entries, (c.Shots+p.Entries-1)/p.Entries
+		// the file is cycled: entry i is delivered floor or ceil of Shots/Entries times (any of them may be among the discarded)
+		lo, hi := max(0, c.Shots/p.Entries-b.discarded), (c.Shots+p.Entries-1)/p.Entries
 		if !b.strict {
 			lo = 0
 		}
@@ -310,12 +332,12 @@ func buildGRPC(c Case, b *built, viol *violations) (gun, ammo map[string]any, er
 	})
 	b.finish = func() int {
 		calls := tg.Calls()
-		if len(calls) > c.Shots || (b.strict && len(calls) != c.Shots) {
-			viol.add("target: %d calls arrived, the provider was limited to %d ammo", len(calls), c.Shots)
+		if shots := b.fired(c); len(calls) > shots || (b.strict && len(calls) != shots) {
+			viol.add("target: %d calls arrived, the provider was limited to %d ammo%s", len(calls), c.Shots, b.discardedNote())
 		}
 		mu.Lock()
 		defer mu.Unlock()
-		lo, hi := c.Shots/p.Entries, (c.Shots+p.Entries-1)/p.Entries
+		lo, hi := max(0, c.Shots/p.Entries-b.discarded), (c.Shots+p.Entries-1)/p.Entries
 		if !b.strict {
 			lo = 0
 		}
@@ -464,11 +486,11 @@ func (j *scenJudge) unsatisfying(step string, n int) bool {
 }
 
 // wantFailed: invocations 1..shots that get an unsatisfying answer when every invocation runs up to FailAt.
-func (j *scenJudge) wantFailed() int {
+func (j *scenJudge) wantFailed(shots int) int {
 	if j.s.FailEvery <= 0 {
 		return 0
 	}
-	return j.c.Shots / j.s.FailEvery
+	return shots / j.s.FailEvery
 }
 
 func newJudge(c Case, viol *violations) *scenJudge {
@@ -959,15 +981,16 @@ func buildHTTPScen(c Case, b *built, viol *violations) (gun, ammo map[string]any
 		recs := tg.Records()
 		j.mu.Lock()
 		defer j.mu.Unlock()
-		if j.seq > c.Shots || (b.strict && j.seq != c.Shots) {
-			viol.add("target: %d scenario invocations began (auth requests), the provider was limited to %d", j.seq, c.Shots)
+		shots := b.fired(c)
+		if j.seq > shots || (b.strict && j.seq != shots) {
+			viol.add("target: %d scenario invocations began (auth requests), the provider was limited to %d%s", j.seq, c.Shots, b.discardedNote())
 		}
 		rep := max(1, s.Repeat)
-		most := c.Shots * (1 + rep)
+		most := shots * (1 + rep)
 		want, dropped := most, ""
 		if s.FailEvery > 0 {
 			// an invocation whose step failed is dropped: no `use` after a failed auth, no further `use` after a failed one
-			f := j.wantFailed()
+			f := j.wantFailed(shots)
 			if s.FailAt == "auth" {
 				want -= f * rep
 			} else {
@@ -975,11 +998,11 @@ func buildHTTPScen(c Case, b *built, viol *violations) (gun, ammo map[string]any
 			}
 			dropped = fmt.Sprintf(", %d of them dropped after an unsatisfying answer to %s", f, s.FailAt)
 			if b.strict && j.failed != f {
-				viol.add("target: %d invocations got an unsatisfying answer at %s, expected %d of %d (every %d-th)", j.failed, s.FailAt, f, c.Shots, s.FailEvery)
+				viol.add("target: %d invocations got an unsatisfying answer at %s, expected %d of %d (every %d-th)", j.failed, s.FailAt, f, shots, s.FailEvery)
 			}
 		}
 		if len(recs) > most || (b.strict && len(recs) != want) {
-			viol.add("target: %d requests arrived, %d invocations of 1+%d steps%s make %d", len(recs), c.Shots, rep, dropped, want)
+			viol.add("target: %d requests arrived, %d invocations of 1+%d steps%s make %d", len(recs), shots, rep, dropped, want)
 		}
 		return len(recs)
 	}
@@ -1246,14 +1269,15 @@ func buildGRPCScen(c Case, b *built, viol *violations) (gun, ammo map[string]any
 		calls := tg.Calls()
 		j.mu.Lock()
 		defer j.mu.Unlock()
-		if j.seq > c.Shots || (b.strict && j.seq != c.Shots) {
-			viol.add("target: %d scenario invocations began (Auth calls), the provider was limited to %d", j.seq, c.Shots)
+		shots := b.fired(c)
+		if j.seq > shots || (b.strict && j.seq != shots) {
+			viol.add("target: %d scenario invocations began (Auth calls), the provider was limited to %d%s", j.seq, c.Shots, b.discardedNote())
 		}
 		rep := max(1, s.Repeat)
-		most := c.Shots * (2 + rep)
+		most := shots * (2 + rep)
 		want, dropped := most, ""
 		if s.FailEvery > 0 {
-			f := j.wantFailed()
+			f := j.wantFailed(shots)
 			switch s.FailAt {
 			case "auth":
 				want -= f * (1 + rep)
@@ -1264,11 +1288,11 @@ func buildGRPCScen(c Case, b *built, viol *violations) (gun, ammo map[string]any
 			}
 			dropped = fmt.Sprintf(", %d of them dropped after an unsatisfying answer to %s", f, s.FailAt)
 			if b.strict && j.failed != f {
-				viol.add("target: %d invocations got an unsatisfying answer at %s, expected %d of %d (every %d-th)", j.failed, s.FailAt, f, c.Shots, s.FailEvery)
+				viol.add("target: %d invocations got an unsatisfying answer at %s, expected %d of %d (every %d-th)", j.failed, s.FailAt, f, shots, s.FailEvery)
 			}
 		}
 		if len(calls) > most || (b.strict && len(calls) != want) {
-			viol.add("target: %d calls arrived, %d invocations of 2+%d steps%s make %d", len(calls), c.Shots, rep, dropped, want)
+			viol.add("target: %d calls arrived, %d invocations of 2+%d steps%s make %d", len(calls), shots, rep, dropped, want)
 		}
 		return len(calls)
 	}
@@ -1296,13 +1320,13 @@ func mkGetNoMD(kv map[string]string) func(string) (string, bool) {
 // readOutput checks the aggregator's file: every line must be well-formed. For phout it also
 // returns the number of samples per tag (the `#id` suffix removed) and checks that ammo ids are unique
 // where the gun sets them (http gun: one sample per ammo).
-func readOutput(c Case, name string, viol *violations) (int, map[string]int) {
+func readOutput(c Case, name string, viol *violations) (int, map[string]int, int) {
 	data, err := afero.ReadFile(pand.FS(), name)
 	if err != nil {
 		viol.add("aggregator %s wrote no output: %v", c.Agg, err)
-		return 0, nil
+		return 0, nil, 0
 	}
-	n := 0
+	n, discarded := 0, 0
 	tags := map[string]int{}
 	ids := map[string]int{}
 	for _, ln := range strings.Split(strings.TrimSuffix(string(data), "\n"), "\n") {
@@ -1317,6 +1341,11 @@ func readOutput(c Case, name string, viol *violations) (int, map[string]int) {
 				continue
 			}
 			tag, id, _ := strings.Cut(f[1], "#")
+			if tag == "discarded" && c.DiscardOverflow {
+				// the sample of a shot that discard_overflow dropped (net code 777): it belongs to no ammo entry
+				discarded++
+				continue
+			}
 			tags[tag]++
 			ids[id]++
 		} else {
@@ -1332,12 +1361,12 @@ func readOutput(c Case, name string, viol *violations) (int, map[string]int) {
 				viol.add("phout: %d samples carry ammo id %q, every ammo is shot once: a sample was altered after it was reported or reused while in flight", k, id)
 			}
 		}
-		if len(ids) != n {
-			viol.add("phout: %d samples carry %d distinct ammo ids", n, len(ids))
+		if len(ids) != n-discarded {
+			viol.add("phout: %d samples carry %d distinct ammo ids", n-discarded, len(ids))
 		}
 	}
 	if c.Agg != "phout" {
 		tags = nil
 	}
-	return n, tags
+	return n, tags, discarded
 }
